@@ -221,6 +221,28 @@ def sampling(tier, rng, rep):
         if not np.all(np.abs(cm @ Cinv.proj_data - np.eye(n + 1)) <= 1e-7):
             rep.fail("diagonalize_inverse", "returned inverse is not the inverse", inp)
         rep.case(key=("eig", t))
+        # --- the same for a composite (stack) of transformations, with and without the inverse frame: unit by unit
+        kst = [n + 1, 2, 1, 4][t % 4]
+        Ms = rng.normal(size=(kst, n + 1, n + 1)) + (1j * rng.normal(size=(kst, n + 1, n + 1)) if cplx else 0)
+        inp = {"n": n, "stack": kst, "M_re": Ms.real.tolist(), "M_im": np.imag(Ms).tolist()}
+
+        def stack():
+            Ts = pr.Transformation(Ms.copy())
+            Cs, Csinv = Ts.diagonalize(return_inv=True)
+            C0 = Ts.diagonalize()
+            cms, cis, c0 = np.asarray(Cs.proj_data), np.asarray(Csinv.proj_data), np.asarray(C0.proj_data)
+            if cms.shape != Ms.shape or cis.shape != Ms.shape or c0.shape != Ms.shape:
+                rep.fail("diagonalize", f"composite of {kst}: frames of shape {cms.shape}, inverses {cis.shape}", inp); return
+            for j in range(kst):
+                for nm, fr in (("frame", cms[j]), ("frame_without_inverse", c0[j])):
+                    prod_ = fr @ Ms[j] @ np.linalg.inv(fr)
+                    off_ = prod_ - np.diag(np.diag(prod_))
+                    if not np.all(np.abs(off_) <= 1e-6 * (1 + np.max(np.abs(prod_))) * np.linalg.cond(fr)):
+                        rep.fail("diagonalize", f"unit {j} of a composite of {kst}: conjugate by the {nm} is not diagonal", inp); return
+                if not np.all(np.abs(cms[j] @ cis[j] - np.eye(n + 1)) <= 1e-7 * np.linalg.cond(cms[j])):
+                    rep.fail("diagonalize_inverse", f"unit {j} of a composite of {kst}: returned inverse is not the inverse", inp); return
+        rep.attempt("diagonalize_runs", inp, stack)
+        rep.case(key=("eig_stack", t), nontrivial=kst > 1)
         # --- hyperplane_coordinate_transform
         nv = rng.normal(size=n + 1)
         if t % 3 == 1:       # structured normals: coordinate hyperplanes, hyperplanes through [1:0:...:0], integer normals
